@@ -12,7 +12,7 @@ from ..acc import Acc, merge_all
 
 LEVEL = "exploration"
 
-MAGS = [0, 1, -1, 2, -3, 10, 2 ** 31, 2 ** 62, 2 ** 63, 2 ** 64 + 3, 10 ** 20, 0.5, -2.5, 1e308]
+MAGS = [0, 1, -1, 2, -3, 10, 2 ** 31, 2 ** 62, 2 ** 63, 2 ** 64 + 3, 10 ** 20, 0.5, -2.5, 1e308, 2.0, -0.0, 1e16, 2 ** 53 + 1]
 EXPS = [0, 1, 2, 3, 20, 40, 64, 100]
 FACTS = [0, 1, 5, 20, 25, 170, 1000]
 SMALL = [0, 1, -3, 2, 10, 2 ** 63, 10 ** 20, 0.5]
@@ -272,7 +272,7 @@ def cases(tier):
                 yield (u, (op, a, b)), env
                 yield (op, (u, a), b), env
     # 5 nodes
-    vals = (MAGS[:11] + [0.5]) if tier == "thorough" else SMALL
+    vals = (MAGS[:11] + [0.5, 2.0, 2 ** 53 + 1]) if tier == "thorough" else SMALL
     T = leaves(vals)
     T2 = [(("c", v), {}) for v in vals + [3, 64]]
     T3 = [(("v", "y"), {"y": v}) for v in vals + [3]] + [(("c", v), {}) for v in vals + [3]]
